@@ -308,7 +308,7 @@ theorem survives_snapshot_and_restart (m r : Node) (d : Dump) (clear : Bool) (h 
   exact resolveVer_some_iff r.cls m.enabled k v
 
 /-- The other branch of `__loadDumpFile`: a received snapshot (`clearJournal`) whose last entry the node has already
-applied, or already holds with the same term, is ignored - log, position, enabled version and name table stay as
+applied, or already holds with the same term, is ignored - log, position, enabled version, name table and waiting callbacks stay as
 they are (the node got / will get the switch through its own log: `enabled_version_is_last_version_applied`). A dump
 read from the node's own file at start-up (`clearJournal = false`) is never ignored. -/
 theorem snapshot_already_held_is_ignored (r : Node) (d : Dump) (clear : Bool) :
@@ -331,6 +331,56 @@ theorem snapshot_already_held_is_ignored (r : Node) (d : Dump) (clear : Bool) :
           exact ⟨e, mem_of_mem_getEntries (hg ▸ List.mem_cons_self), by simpa using h2, by rw [hg]; rfl⟩
         · cases h2
   · simp [skipsInstall]
+
+/-- **Loading a dump answers exactly the subscribers it covers** (repair D61), and only when the dump is installed:
+* ignored snapshot (`skipsInstall`, the early return comes first): nothing is answered, the waiting list is untouched;
+* installed dump: every subscriber of an index `≤` the dump's last index - and no other - gets
+  `(None, LEADER_CHANGED)` (`Ev.callbackOpen`), by ascending index; those indices leave the waiting list, all
+  others stay as they are, so afterwards no waiting index is `≤ lastApplied`; no implementation runs. -/
+theorem dump_load_answers_covered_subscribers (r : Node) (d : Dump) (clear : Bool) :
+    (skipsInstall r d clear = true →
+      loadDumpEvents r d clear = [] ∧ (loadDump r d clear).waiting = r.waiting) ∧
+    (skipsInstall r d clear = false →
+      (loadDump r d clear).waiting = r.waiting.filter (fun p => !decide (p.1 ≤ d.last.idx)) ∧
+      (∀ p ∈ (loadDump r d clear).waiting, (loadDump r d clear).lastApplied < p.1) ∧
+      loadDumpEvents r d clear =
+        (coveredWaiting r.waiting d.last.idx).flatMap (fun p => p.2.map (fun s => Ev.callbackOpen s.2)) ∧
+      (∀ p, p ∈ coveredWaiting r.waiting d.last.idx ↔ p ∈ r.waiting ∧ p.1 ≤ d.last.idx) ∧
+      (coveredWaiting r.waiting d.last.idx).Pairwise (fun a b => a.1 ≤ b.1) ∧
+      (∀ cb, Ev.callbackOpen cb ∈ loadDumpEvents r d clear ↔
+        ∃ p ∈ r.waiting, p.1 ≤ d.last.idx ∧ ∃ s ∈ p.2, s.2 = cb)) ∧
+    ranIdxs (loadDumpEvents r d clear) = [] := by
+  refine ⟨fun h => ⟨by simp [loadDumpEvents, h], by simp [loadDump, h]⟩, fun h => ?_, ranIdxs_loadDumpEvents r d clear⟩
+  have hw : (loadDump r d clear).waiting = r.waiting.filter (fun p => !decide (p.1 ≤ d.last.idx)) := by
+    simp [loadDump, h]
+  have hl : (loadDump r d clear).lastApplied = d.last.idx := by simp [loadDump, h]
+  have he : loadDumpEvents r d clear =
+      (coveredWaiting r.waiting d.last.idx).flatMap (fun p => p.2.map (fun s => Ev.callbackOpen s.2)) := by
+    simp [loadDumpEvents, h]
+  refine ⟨hw, ?_, he, fun p => mem_coveredWaiting, coveredWaiting_sorted _ _, ?_⟩
+  · intro p hp
+    rw [hw, List.mem_filter] at hp
+    rw [hl]
+    have := hp.2
+    simp only [Bool.not_eq_true', decide_eq_false_iff_not] at this
+    omega
+  · intro cb
+    rw [he]
+    simp only [List.mem_flatMap, List.mem_map, Ev.callbackOpen.injEq]
+    constructor
+    · rintro ⟨p, hp, s, hs, rfl⟩
+      obtain ⟨h1, h2⟩ := mem_coveredWaiting.1 hp
+      exact ⟨p, h1, h2, s, hs, rfl⟩
+    · rintro ⟨p, h1, h2, s, hs, rfl⟩
+      exact ⟨p, mem_coveredWaiting.2 ⟨h1, h2⟩, s, hs, rfl⟩
+
+/-- Non-vacuity: a fresh node holding callbacks for index 4 (covered, two subscribers) and 9 (not covered) installs a
+dump at 6. -/
+example : ∃ (r : Node) (d : Dump), skipsInstall r d true = false ∧
+    loadDumpEvents r d true = [Ev.callbackOpen 91, Ev.callbackOpen 94] ∧
+    (loadDump r d true).waiting = [(9, [(1, 93)])] :=
+  ⟨{ initNode [] with waiting := [(4, [(1, 91), (2, 94)]), (9, [(1, 93)])] },
+   ⟨some 1, ⟨.noop, 5, 1⟩, ⟨.version 1, 6, 1⟩⟩, by decide, by decide +kernel, by decide +kernel⟩
 
 example : ∃ (r : Node) (d : Dump), skipsInstall r d true = false ∧ skipsInstall r d false = false ∧ r.log ≠ [] :=
   ⟨initNode [], ⟨some 1, ⟨.noop, 5, 1⟩, ⟨.version 1, 6, 1⟩⟩, by decide, by decide, by decide⟩
